@@ -59,7 +59,7 @@ def thresholds(tier):
 
 
 def knobs_for(rng):
-  return {"p_omit_bounds_blk": rng.choice([0, 0.5]), "p_expr_bounds_blk": rng.choice([0, 0.4]), "depth": rng.choice([0, 1, 1, 2]), "max_children": rng.choice([1, 2]), "p_ff": 0.25, "p_connect": 0.45, "p_split": 0.5,
+  return {"p_omit_bounds_blk": rng.choice([0, 0.5]), "p_expr_bounds_blk": rng.choice([0, 0.4]), "p_attr_bounds": 0.4, "depth": rng.choice([0, 1, 1, 2]), "max_children": rng.choice([1, 2]), "p_ff": 0.25, "p_connect": 0.45, "p_split": 0.5,
           "p_struct": 0.3, "max_sigs": 4, "expr_depth": 1, "p_if": 0.1, "p_func": rng.choice([0, 0.4]), "p_subclass": rng.choice([0, 0.5])}
 
 
